@@ -1,6 +1,8 @@
 import Pcore.Proofs.ValueEqKey
 import Pcore.Proofs.ValueEqTyKey
 import Pcore.Generated.KeyTable
+import Pcore.Proofs.ValueEqCache
+import Pcore.Generated.CacheFacts
 /-!
 # C07 — Equality is an equivalence relation and hash keys respect it
 
@@ -464,6 +466,81 @@ theorem C07_unique_distinct (vs : List Val) (hc : ∀ v ∈ vs, Comparable v) (t
 theorem C07_unique_distinct_topsafe (vs : List Val) (hc : ∀ v ∈ vs, Comparable v) (ts : ∀ u ∈ vs, ∀ v ∈ vs, TopSafe u v) :
     (unique vs).Pairwise (fun a b => veq a b = false) :=
   C07_unique_distinct vs hc ts (fun u hu v hv => TypeKeysAgree_of_comparable (hc u hu) (hc v hv))
+
+/-! ## hidden state: the lazily built index of a Hash
+
+`Model/ValueEqCache.lean` gives a Hash its hidden `index` (absent until `valueIndex` is first asked; built by the forward loop
+with overwrite; kept), and `Get` / `IncludesKey` / `Equals` as the code computes them — THROUGH the index.  The invariant the
+implementation maintains is `Coherent`: the index, if present, is the index of the present entries (entries are never changed
+behind an index — C08's subject; `MutableHashValue.PutAll` resets it).  Under it no answer depends on the hidden state. -/
+
+/-- `Hash.Get` through the index is `hashGet` whatever the state of the cache, and asking leaves the hash coherent and unchanged -/
+theorem C07_get_cache_independent (h : CHash) (c : h.Coherent) (k : Val) :
+    (h.get k).2 = hashGet h.entries k ∧ (h.get k).1.entries = h.entries ∧ (h.get k).1.Coherent := get_coherent c k
+
+theorem C07_includes_cache_independent (h : CHash) (c : h.Coherent) (k : Val) :
+    (h.includesKey k).2 = (hashGet h.entries k).isSome ∧ (h.includesKey k).1.entries = h.entries ∧ (h.includesKey k).1.Coherent :=
+  includesKey_coherent c k
+
+/-- `IncludesKey` answers true exactly when the hash contains an equal key (the corollary of `C07_get_topsafe` for the method
+    that only asks the index) -/
+theorem C07_includes_key (h : CHash) (c : h.Coherent) (k : Val) (hh : Comparable (.hash h.entries)) (hk : Comparable k)
+    (ts : ∀ e ∈ h.entries, TopSafe e.1 k) : (h.includesKey k).2 = true ↔ ∃ e ∈ h.entries, veq e.1 k = true := by
+  rw [(includesKey_coherent c k).1]
+  exact C07_get_topsafe h.entries k hh hk ts
+
+/-- `Hash.Equals`, computed through the two indexes as the code does, is the model's `veq` on the two hashes — before the
+    caches were built, after, or with only one of them built: equality does not depend on the hidden state -/
+theorem C07_equals_cache_independent (h o : CHash) (ch : h.Coherent) (co : o.Coherent) :
+    (h.equals o).2 = veq (.hash h.entries) (.hash o.entries) ∧
+    (h.equals o).1.1.entries = h.entries ∧ (h.equals o).1.2.entries = o.entries ∧
+    (h.equals o).1.1.Coherent ∧ (h.equals o).1.2.Coherent := by
+  obtain ⟨e1, e2, e3, e4, e5⟩ := equals_coherent ch co
+  exact ⟨e1.trans (equals_index_spec _ _), e2, e3, e4, e5⟩
+
+/-- before vs after every lazy cache was forced: the same answers -/
+theorem C07_forced_same (h o : CHash) (ch : h.Coherent) (co : o.Coherent) (k : Val) :
+    (h.force.get k).2 = (h.get k).2 ∧ (h.force.includesKey k).2 = (h.includesKey k).2 ∧
+    (h.force.equals o.force).2 = (h.equals o).2 ∧ (h.force.equals o).2 = (h.equals o).2 ∧ (h.equals o.force).2 = (h.equals o).2 := by
+  obtain ⟨f1, f2, _⟩ := force_coherent ch
+  obtain ⟨g1, g2, _⟩ := force_coherent co
+  refine ⟨?_, ?_, ?_, ?_, ?_⟩
+  · rw [(get_coherent f2 k).1, (get_coherent ch k).1, f1]
+  · rw [(includesKey_coherent f2 k).1, (includesKey_coherent ch k).1, f1]
+  · rw [(C07_equals_cache_independent _ _ f2 g2).1, (C07_equals_cache_independent _ _ ch co).1, f1, g1]
+  · rw [(C07_equals_cache_independent _ _ f2 co).1, (C07_equals_cache_independent _ _ ch co).1, f1]
+  · rw [(C07_equals_cache_independent _ _ ch g2).1, (C07_equals_cache_independent _ _ ch co).1, g1]
+
+/-- the one mutator: a `MutableHashValue.Put` leaves a coherent hash (it resets the index), whatever it was before -/
+theorem C07_put_coherent (h : CHash) (k v : Val) : (h.put k v).Coherent := put_coherent h k v
+
+/-- the invariant is needed: with a stale index (the entries changed behind it) `Get` answers from the old position -/
+theorem C07_stale_index_breaks :
+    let stale : CHash := { entries := [(.int 2, .str [0x62]), (.int 1, .str [0x61])], index := some (buildIndex [(.int 1, .str [0x61])]) }
+    ¬ stale.Coherent ∧ ((stale.get (.int 1)).2).map kb = some [0x62] ∧ (hashGet stale.entries (.int 1)).map kb = some [0x61] := by
+  refine ⟨?_, by decide, by decide⟩
+  intro h
+  rcases h with h | h
+  · cases h
+  · exact absurd h (by decide)
+
+/-- which caches exist, and who writes the index: regenerated from the Go sources on every run (`Generated.cacheFacts`).  The
+    Hash struct has the three cache fields the model knows (`index` is the one `Equals`/`Get`/`IncludesKey` read), the Array
+    struct the two type caches; the index is written by `valueIndex` (a lazy fill) and `PutAll` (a reset) and by nothing else -/
+def cacheFieldsOk (f : Pcore.Heap.CacheFacts) : Bool :=
+  f.fields == [("Array", ["reducedType", "detailedType"]), ("Hash", ["reducedType", "detailedType", "index"]),
+    ("MutableHashValue", ["embedded Hash"])] &&
+  (f.writes.filter (fun w => w.2.1 == "index")) ==
+    [("Hash.valueIndex", "index", Pcore.Heap.CacheWrite.lazyFill), ("MutableHashValue.PutAll", "index", Pcore.Heap.CacheWrite.reset)]
+
+theorem C07_cache_fields_ok : cacheFieldsOk Pcore.Generated.cacheFacts = true := by decide
+
+/-- non-vacuity: a three-entry hash asked before and after forcing, and against a permuted copy with its index built -/
+def sampleH : CHash := { entries := [(.str [0x61], .int 1), (.semver verMin, .int 2), (.typ (.callable true [.str]), .int 3)] }
+def sampleH' : CHash := ({ entries := [(.typ (.callable true [.str]), .int 3), (.str [0x61], .int 1), (.semver verMin, .int 2)] } : CHash).force
+example : sampleH.Coherent ∧ sampleH'.Coherent ∧ sampleH'.index.isSome = true := ⟨Or.inl rfl, Or.inr rfl, rfl⟩
+example : (sampleH.equals sampleH').2 = true ∧ ((sampleH.get (.semver verMin)).2).map kb = some (kb (.int 2)) ∧
+    (sampleH'.includesKey (.typ (.callable true [.str]))).2 = true ∧ (sampleH'.includesKey (.typ (.callable false []))).2 = false := by decide
 
 /-! ## second tie: the kind prefixes regenerated from the Go sources are the ones the model writes -/
 
